@@ -774,7 +774,7 @@ def _nat_arrays(a, b):
     return not lax_model.label_of(a) and not lax_model.label_of(b)
 
 
-OPAQUE_OPS = {"lmap", "single", "flat", "lens", "emap", "zip", "enum", "filtermap", "list", "upd", "el", "at",
+OPAQUE_OPS = {"lmap", "single", "flat", "lens", "emap", "zip", "enum", "filtermap", "mapwhile", "list", "upd", "el", "at",
               "umap", "truncate", "rec", "seq", "nat", "tup", "user", "unit", "enum", "bool", "top"}
 
 
